@@ -105,6 +105,8 @@ def m{k}(arg: C{k}) -> int:
     return arg.{fname}
 def a{k}(p_q: Annotated[int, validators_metadata(_arg_check){", " + md[0] if alias is not None else ""}] = 0) -> int:
     return p_q
+def n{k}(p_q: Annotated[int, validators_metadata(_arg_check){", " + md[0] if alias is not None else ""}] = None) -> Optional[int]:
+    return p_q
 '''
 
 
@@ -320,7 +322,8 @@ def check_graphql(mod, k, cfg, dyn, ext, other_ext, viol, st):
 
     fname, alias, override, cal, *_ = cfg
     q, m, a = getattr(mod, f"q{k}"), getattr(mod, f"m{k}"), getattr(mod, f"a{k}")
-    schema = graphql_schema(query=[q, a], mutation=[m], aliaser=DYN[dyn])
+    nn = getattr(mod, f"n{k}")
+    schema = graphql_schema(query=[q, a, nn], mutation=[m], aliaser=DYN[dyn])
     st.count("graphql_schemas")
     out_t = schema.type_map[f"C{k}"]
     if set(out_t.fields) != {ext, other_ext}:
@@ -349,6 +352,15 @@ def check_graphql(mod, k, cfg, dyn, ext, other_ext, viol, st):
             msg = str(r.errors[0].message) if r.errors else ""
             if not r.errors or repr([arg_ext]) not in msg.replace('"', "'"):
                 viol("graphql_argument_error_loc", f"errors={msg!r} expected loc [{arg_ext!r}]")
+        # the same parameter with a None default (the schema builder wraps its type in Optional)
+        nname = DYN[dyn](f"n{k}")
+        args = set(schema.query_type.fields[nname].args)
+        if args != {arg_ext}:
+            viol("graphql_optional_argument_name", f"{sorted(args)} expected {arg_ext!r}")
+        else:
+            r = graphql.graphql_sync(schema, "{ %s(%s: 5) }" % (nname, arg_ext))
+            if r.errors or r.data != {nname: 5}:
+                viol("graphql_optional_argument_value", f"data={r.data} errors={r.errors}")
 
 
 def configs():
